@@ -121,6 +121,14 @@ CHECKS = {
         "seeded long random byte strings go through the real join -> split (must return the same bytes; a panic is reported) and through real bash (printf %s\\0; must print the same bytes).",
    note="bash 5.2 non-interactive, empty cwd, HOME=/nonexistent-home; identity through two real decoders is the oracle, the model supplies enumeration and the style conditions",
    tech="TLC model checking of the quoting-style conditions + bounded-exhaustive replay through the real functions and bash"),
+ "C10": dict(cat="model_checking", sec="5 C10",
+   text="ReportFmt.tla is the line-level reader state machine of the text format (7 header lines, group header, `count` path lines) over every truncation of a report (after a line or inside it); "
+        "TLC checks that only complete original groups are delivered and that a cut inside a group is rejected (the variant that accepts an unterminated path line fails, which is the defect "
+        "repaired by a fix commit). Reports with every string of <= 2 (quick) / 3 (thorough) troublesome bytes as file name, argument and base directory plus random long names are written by "
+        "the real ReportWriter and read by the real readers in both formats (exact equality of header and groups); every byte prefix of sample reports is fed to the readers and, end to end, "
+        "prefixes of a real report to `fclones remove --dry-run` (no command for a path that is not in the report).",
+   note="escaping fidelity (stfu8) is decided by executing the real encoder/decoder; the spec contributes the reader state machine and the enumeration",
+   tech="TLC model checking of the reader state machine + bounded-exhaustive round-trip and truncation replay through the real writer/readers"),
 }
 
 def main():
